@@ -1,7 +1,7 @@
-(* Deep embedding of the scalar / matrix expressions produced by the symbolic tracer (vlib/symtrace.py).
-   PLACEHOLDER with the agreed interface (types only); the full version with interpC/interpM into Coquelicot's C
-   is developed on branch agent/sym and replaces this file. *)
-From Coq Require Import QArith List.
+(* Sym/Expr.v — deep embedding of scalar and matrix expressions, and their meaning in Coquelicot's C.
+   This file is the INTERFACE targeted by generated code: constructor names and interpC/interpM are fixed. *)
+From Coq Require Import Reals QArith Qreals List ZArith Lra Lia.
+From Coquelicot Require Import Coquelicot.
 Import ListNotations.
 
 Inductive expr :=
@@ -11,5 +11,134 @@ Inductive expr :=
 | ESin (a : expr) | ECos (a : expr) | EExp (a : expr) | ESqrt (a : expr) | EConj (a : expr).
 
 Inductive mexpr :=
-| MLeaf (rows : list (list expr)) | MMul (a b : mexpr) | MKron (a b : mexpr) | MScale (c : expr) (a : mexpr)
+| MLeaf (rows : list (list expr))
+| MMul (a b : mexpr) | MKron (a b : mexpr) | MScale (c : expr) (a : mexpr)
 | MAdd (a b : mexpr) | MDag (a : mexpr).
+
+Notation env := (nat -> R).
+
+(* kinds of variables: Plain = polynomial indeterminate; Phase d = angle variable x whose atom is e^{i x / d} *)
+Inductive vkind := Plain | Phase (den : positive).
+Notation config := (nat -> vkind).
+(* configuration from a list of the Phase variables (everything else Plain) *)
+Fixpoint config_of (l : list (nat * positive)) (v : nat) : vkind :=
+  match l with [] => Plain | (w, d) :: r => if Nat.eqb v w then Phase d else config_of r v end.
+
+(* ---------- list-of-rows matrices over an arbitrary carrier (used at C and at the symbolic ring) ---------- *)
+Section ListMat.
+  Context {T : Type}.
+  Variables (zero : T) (add mul : T -> T -> T) (conj : T -> T).
+
+  Definition lm_ncols (m : list (list T)) : nat := length (hd [] m).
+  Definition lm_col (j : nat) (m : list (list T)) : list T := map (fun r => nth j r zero) m.
+  Definition lm_dot (r c : list T) : T := fold_right add zero (map (fun p => mul (fst p) (snd p)) (combine r c)).
+  (* (a b)_{ij} = sum_k a_{ik} b_{kj} *)
+  Definition lm_mul (a b : list (list T)) : list (list T) :=
+    map (fun r => map (fun j => lm_dot r (lm_col j b)) (seq 0 (lm_ncols b))) a.
+  (* numpy.kron order: kron(a,b)[i*p+k][j*q+l] = a[i][j] * b[k][l] *)
+  Definition lm_kron (a b : list (list T)) : list (list T) :=
+    flat_map (fun ra => map (fun rb => flat_map (fun x => map (fun y => mul x y) rb) ra) b) a.
+  Definition lm_scale (s : T) (a : list (list T)) : list (list T) := map (map (mul s)) a.
+  Definition lm_add (a b : list (list T)) : list (list T) :=
+    map (fun rr => map (fun p => add (fst p) (snd p)) (combine (fst rr) (snd rr))) (combine a b).
+  (* conjugate transpose: (a^dagger)_{ji} = conj a_{ij} *)
+  Definition lm_dag (a : list (list T)) : list (list T) :=
+    map (fun j => map conj (lm_col j a)) (seq 0 (lm_ncols a)).
+End ListMat.
+
+(* ---------- scalars ---------- *)
+Open Scope C_scope.
+
+Definition Cexp (t : R) : C := (cos t, sin t).
+Fixpoint Cpown (z : C) (n : nat) : C := match n with O => 1 | S k => z * Cpown z k end.
+
+Fixpoint interpC (rho : env) (e : expr) : C :=
+  match e with
+  | EQ q => RtoC (Q2R q)
+  | EPi => RtoC PI
+  | EI => Ci
+  | EVar v => RtoC (rho v)
+  | EAdd a b => interpC rho a + interpC rho b
+  | ESub a b => interpC rho a - interpC rho b
+  | EMul a b => interpC rho a * interpC rho b
+  | EDiv a b => interpC rho a / interpC rho b
+  | ENeg a => - interpC rho a
+  | EPow a n => Cpown (interpC rho a) n
+  | ESin a => RtoC (sin (Re (interpC rho a)))
+  | ECos a => RtoC (cos (Re (interpC rho a)))
+  | EExp a => RtoC (exp (Re (interpC rho a))) * Cexp (Im (interpC rho a))
+  | ESqrt a => RtoC (sqrt (Re (interpC rho a)))
+  | EConj a => Cconj (interpC rho a)
+  end.
+
+Notation Cmat := (list (list C)).
+Definition Cm_mul : Cmat -> Cmat -> Cmat := lm_mul (RtoC 0) Cplus Cmult.
+Definition Cm_kron : Cmat -> Cmat -> Cmat := lm_kron Cmult.
+Definition Cm_scale : C -> Cmat -> Cmat := lm_scale Cmult.
+Definition Cm_add : Cmat -> Cmat -> Cmat := lm_add Cplus.
+Definition Cm_dag : Cmat -> Cmat := lm_dag (RtoC 0) Cconj.
+
+Fixpoint interpM (rho : env) (m : mexpr) : Cmat :=
+  match m with
+  | MLeaf rows => map (map (interpC rho)) rows
+  | MMul a b => Cm_mul (interpM rho a) (interpM rho b)
+  | MKron a b => Cm_kron (interpM rho a) (interpM rho b)
+  | MScale c a => Cm_scale (interpC rho c) (interpM rho a)
+  | MAdd a b => Cm_add (interpM rho a) (interpM rho b)
+  | MDag a => Cm_dag (interpM rho a)
+  end.
+
+(* ---------- basic facts about Cexp / Cpown used everywhere ---------- *)
+Lemma Cexp_add a b : Cexp (a + b) = Cexp a * Cexp b.
+Proof. unfold Cexp, Cmult; simpl. rewrite cos_plus, sin_plus. f_equal; ring. Qed.
+Lemma Cexp_0 : Cexp 0 = 1. Proof. unfold Cexp. now rewrite cos_0, sin_0. Qed.
+Lemma Cexp_PI : Cexp PI = - (RtoC 1).
+Proof. unfold Cexp. rewrite cos_PI, sin_PI. unfold Copp, RtoC; simpl. f_equal; ring. Qed.
+Lemma Cexp_neg t : Cexp (- t) = Cconj (Cexp t).
+Proof. unfold Cexp, Cconj; simpl. now rewrite cos_neg, sin_neg. Qed.
+Lemma Cexp_mul_neg t : Cexp t * Cexp (- t) = 1.
+Proof. rewrite <- Cexp_add. replace (t + - t)%R with 0%R by ring. apply Cexp_0. Qed.
+Lemma Cexp_2PI : Cexp (2 * PI) = 1.
+Proof. unfold Cexp. now rewrite cos_2PI, sin_2PI. Qed.
+Lemma Cexp_2PI_nat n : Cexp (INR n * (2 * PI)) = 1.
+Proof. induction n. simpl. rewrite Rmult_0_l. apply Cexp_0.
+  rewrite S_INR. replace ((INR n + 1) * (2 * PI))%R with (INR n * (2 * PI) + 2 * PI)%R by ring.
+  rewrite Cexp_add, IHn, Cexp_2PI. ring. Qed.
+Lemma Cexp_2PI_Z k : Cexp (IZR k * (2 * PI)) = 1.
+Proof. destruct (Z_le_gt_dec 0 k) as [H|H].
+  - rewrite <- (Z2Nat.id k H), <- INR_IZR_INZ. apply Cexp_2PI_nat.
+  - assert (E : Cexp (IZR k * (2 * PI)) * Cexp (- (IZR k * (2 * PI))) = 1) by apply Cexp_mul_neg.
+    replace (- (IZR k * (2 * PI)))%R with (IZR (- k) * (2 * PI))%R in E by (rewrite opp_IZR; ring).
+    assert (Hk : (0 <= - k)%Z) by lia.
+    rewrite <- (Z2Nat.id (- k) Hk), <- INR_IZR_INZ, Cexp_2PI_nat in E.
+    rewrite <- E. ring. Qed.
+Lemma Cexp_period t k : Cexp (t + IZR k * (2 * PI)) = Cexp t.
+Proof. rewrite Cexp_add, Cexp_2PI_Z. ring. Qed.
+
+Lemma Cpown_add z m n : Cpown z (m + n) = Cpown z m * Cpown z n.
+Proof. induction m; simpl. ring. rewrite IHm. ring. Qed.
+Lemma Cpown_1 n : Cpown 1 n = 1.
+Proof. induction n; simpl. reflexivity. rewrite IHn. ring. Qed.
+Lemma Cexp_pown t n : Cpown (Cexp t) n = Cexp (INR n * t).
+Proof. induction n. simpl. replace (0 * t)%R with 0%R by ring. now rewrite Cexp_0.
+  rewrite S_INR. simpl Cpown. rewrite IHn, <- Cexp_add. f_equal. ring. Qed.
+
+Lemma Cconj_plus a b : Cconj (a + b) = Cconj a + Cconj b.
+Proof. unfold Cconj, Cplus; simpl. f_equal. ring. Qed.
+Lemma Cconj_mult a b : Cconj (a * b) = Cconj a * Cconj b.
+Proof. unfold Cconj, Cmult; simpl. f_equal; ring. Qed.
+Lemma Cconj_opp a : Cconj (- a) = - Cconj a.
+Proof. unfold Cconj, Copp; simpl. reflexivity. Qed.
+Lemma Cconj_R (x : R) : Cconj (RtoC x) = RtoC x.
+Proof. unfold Cconj, RtoC; simpl. f_equal. ring. Qed.
+Lemma Cconj_invol a : Cconj (Cconj a) = a.
+Proof. destruct a; unfold Cconj; simpl. f_equal. ring. Qed.
+Lemma Cconj_pown a n : Cconj (Cpown a n) = Cpown (Cconj a) n.
+Proof. induction n; simpl. apply Cconj_R. now rewrite Cconj_mult, IHn. Qed.
+Lemma Cexp_conj t : Cconj (Cexp t) = Cexp (- t).
+Proof. now rewrite Cexp_neg. Qed.
+
+Lemma C_inv_unique (y w : C) : y * w = 1 -> / y = w.
+Proof. intros H. assert (Hy : y <> 0).
+  { intros E. rewrite E in H. rewrite Cmult_0_l in H. apply (f_equal fst) in H. simpl in H. lra. }
+  rewrite <- (Cmult_1_r (/ y)), <- H, Cmult_assoc, Cinv_l by exact Hy. ring. Qed.
